@@ -266,6 +266,16 @@ func emitDiff(tr *vh.Trace, via int, a, b dt) {
 	counts["Diff"]++
 }
 
+// emitValid: does the real code accept the seven fields as a date (NewDate)?
+func emitValid(tr *vh.Trace, d dt) {
+	ok := 0
+	if mk(d) != core.NilDate {
+		ok = 1
+	}
+	tr.Emit(vh.E("Valid", "tz", tzRun, "zn", zone, "d", d.sl(), "ok", ok))
+	counts["Valid"]++
+}
+
 // emitLit: the literal text of a date (String / Display) and what it parses back to
 func emitLit(tr *vh.Trace, via int, d dt) {
 	sd := mk(d)
@@ -491,6 +501,23 @@ func run(outdir string, scale int) {
 	if scale >= 4 {
 		nDays, nOther, nCombo = 40, 8, 12
 	}
+	// 0. which field combinations of the grid (and random ones) are dates at all
+	for _, y := range gridYears {
+		for m := 1; m <= 12; m++ {
+			for _, d := range gridDays {
+				emitValid(tr, dt{y, m, d, 0, 0, 0, 0})
+				emitValid(tr, withTime(dt{y, m, d, 0, 0, 0, 0}, randTime()))
+			}
+		}
+	}
+	for i := 0; i < 300*scale; i++ {
+		y := 1700 + rnd.Intn(1301)
+		if rnd.Intn(3) == 0 {
+			y = 100 * (17 + rnd.Intn(14))
+		}
+		t := randTime()
+		emitValid(tr, dt{y, pick([]int{1, 2, 2, 2, 4, 6, 9, 11, 12}), pick([]int{1, 28, 29, 29, 30, 31}), t[0], t[1], t[2], t[3]})
+	}
 	// 1. the boundary grid of MC_Calendar: every grid date, the time of day rotating with
 	// the seed; all month offsets -25..25; seeded samples of the other offset sets
 	for gi, g := range grid {
@@ -641,7 +668,7 @@ func guardPlus(d core.SuDate, o off) (r dt, ok bool) {
 
 func summary() {
 	kv := []any{"seed", vh.Seed(), "tz", os.Getenv("TZ"), "local", time.Local.String()}
-	for _, k := range []string{"Plus", "Diff", "Lit", "Parse"} {
+	for _, k := range []string{"Valid", "Plus", "Diff", "Lit", "Parse"} {
 		kv = append(kv, k, counts[k])
 	}
 	vh.Summary(kv...)
@@ -685,6 +712,7 @@ func tz(out string) {
 		days = sel
 	}
 	for _, d := range days {
+		emitValid(tr, d)
 		for _, s := range literalForms(d)[:1] {
 			emitParse(tr, 0, s)
 			emitParse(tr, 1+rnd.Intn(2), s)
@@ -709,7 +737,7 @@ func tz(out string) {
 	}
 	tr.Close()
 	vh.Summary("seed", vh.Seed(), "tz", os.Getenv("TZ"), "local", time.Local.String(), "changedays", len(days),
-		"Plus", counts["Plus"], "Diff", counts["Diff"], "Lit", counts["Lit"], "Parse", counts["Parse"])
+		"Valid", counts["Valid"], "Plus", counts["Plus"], "Diff", counts["Diff"], "Lit", counts["Lit"], "Parse", counts["Parse"])
 }
 
 // guardPlusUTC picks a start date for a tz scenario with Go's time package in UTC
@@ -783,6 +811,8 @@ func replay(in, out string) {
 				o[6] = xd*msPerDay + lo[6]
 			}
 			emitPlus(tr, geti(m, "via"), todt(getis(m, "d")), o)
+		case "Valid":
+			emitValid(tr, todt(getis(m, "d")))
 		case "Diff":
 			emitDiff(tr, geti(m, "via"), todt(getis(m, "a")), todt(getis(m, "b")))
 		case "Lit":
